@@ -210,6 +210,15 @@ pub fn explore<M: Model>(m: &M, rep: &Report, lim: &Limits, label: &str) -> Outc
             "inner": v.case,
         });
         v.case = case;
+        // a confluence alarm means the second path reaches a different state under the same key:
+        // if that state itself violates an oracle (it was never checked, being a duplicate), report
+        // that more specific violation instead
+        if v.oracle == "confluence" {
+            if let Ok(Some(mut v2)) = replay_path(m, init as usize, &path, false) {
+                v2.case = v.case.clone();
+                v = v2;
+            }
+        }
         if rep.is_known(&v) {
             rep.violation(v);
             return true;
